@@ -73,6 +73,11 @@ Inits ==
          {<<Hdr("graph", "str", "str", FALSE), <<>>>>}
     [] Fam = "seqp" ->   \* the same on top of a well-formed graph: a violation (or a cycle, a duplicate ...) at the end of a valid construction
          {<<Hdr("graph", "str", "str", FALSE), <<Plain("n1", "str", "str", "str"), Plain("n2", "str", "str", "str"), EdgeOp(START, "n1", ""), EdgeOp("n1", END, "")>>>>}
+    [] Fam = "cyc" ->    \* cycles behind double connections (an edge AND a branch from the same node into a cycle member), both trigger modes
+         {<<Hdr("graph", "str", "str", FALSE), <<Plain("n1", "str", "str", "str"), Plain("n2", "str", "str", "str"), Plain("n3", "str", "str", "str"),
+                                                 EdgeOp(START, "n1", ""), EdgeOp("n2", "n3", "")>>>>}
+    [] Fam = "chain" ->  \* Chain front end: Append* in every order, Compile, refused Append* after it, Compile again
+         {<<Hdr("chain", "str", "str", FALSE), <<>>>>}
     [] Fam = "seqs" ->   \* the same with graph state (state handlers legal)
          {<<Hdr("graph", "str", "str", TRUE), <<Plain("n1", "str", "str", "str")>>>>}
     [] Fam = "wf" ->     \* workflow front end: field mappings, compiled twice
@@ -100,10 +105,18 @@ Alphabet(K) ==   \* K = keys declared so far
           NodeOp("n2", "str", "str", "str", "pre", "str"), NodeOp("n2", "str", "str", "str", "post", "int"), PassOp("p1", "pre", "any"), PassOp("p1", "pre", "str")}
          \cup {EdgeOp(p[1], p[2], "") : p \in {START, "n1", "n2", "p1", "zz"} \X {END, "n1", "n2", "p1", "zz"}}
          \cup {BranchOp(p[1], "str", p[2], p[2][1]) : p \in {START, "n1", "p1", "zz"} \X {<<END>>, <<"n1", END>>, <<"p1", END>>, <<"n1", "zz">>, <<"n1", "p1">>}}
+    [] Fam = "cyc" ->
+         {EdgeOp(p[1], p[2], "") : p \in {q \in {"n1", "n2", "n3"} \X {"n1", "n2", "n3", END} : q[1] # q[2] /\ q # <<"n2", "n3">>}}
+         \cup {BranchOp(p[1], "str", p[2], p[2][1]) : p \in {"n1", "n2", "n3"} \X {<<"n2", END>>, <<"n3", END>>, <<"n2", "n3">>}}
+    [] Fam = "chain" ->  \* the chain names its nodes itself; the case uses the next free key
+         LET nk == IF "n1" \notin K THEN "n1" ELSE IF "n2" \notin K THEN "n2" ELSE "n3" IN
+         {Plain(nk, "str", "str", "str"), Plain(nk, "str", "int", "int"), Plain(nk, "int", "str", "str")}
     [] Fam = "wf" -> {}
 CompileAlphabet == IF Fam \in {"seq", "seqs", "seqp"} THEN {CompileOp("any", ""), CompileOp("all", ""), CompileOp("all", "maxsteps"), CompileOp("any", "maxsteps")}
+                   ELSE IF Fam = "cyc" THEN {CompileOp("any", ""), CompileOp("all", "")}
+                   ELSE IF Fam = "chain" THEN {CompileOp("any", ""), CompileOp("all", ""), CompileOp("any", "maxsteps")}
                    ELSE {CompileOp("any", "")}
-PostAlphabet(K) == IF Fam \in {"seq", "seqs", "seqp"} THEN Alphabet(K) \cup CompileAlphabet
+PostAlphabet(K) == IF Fam \in {"seq", "seqs", "seqp", "chain"} THEN Alphabet(K) \cup CompileAlphabet
                    ELSE IF Fam = "wf" THEN   \* on the retained *WorkflowNode handles (these calls return no error value)
                         {CompileOp("any", ""), StaticOp("n1", "s", "b"), StaticOp("n1", "s2", "b"), EdgeOp(START, "n1", "fm2")}
                    ELSE IF Fam = "wfin" THEN {CompileOp("any", "")}
@@ -112,14 +125,15 @@ PostAlphabet(K) == IF Fam \in {"seq", "seqs", "seqp"} THEN Alphabet(K) \cup Comp
 --------------------------------------------------------------------------------
 VARIABLES hdr, todo, plen,
           nodes, ctrl, data, brs, tv, mayE, preNode, fmk, berr, compiled, startN, endN,   \* the builder
+          ch,                                                                             \* the Chain wrapper: sticky c.err, hasEnd, preNodeKeys
           wf,                                                                             \* the Workflow wrapper: deferred inputs, static values, mapped target paths
           snap,                                                                           \* handler maps as they were when the first runnable was made
           hist, outs, pc, cur
-vars == <<hdr, todo, plen, nodes, ctrl, data, brs, tv, mayE, preNode, fmk, berr, compiled, startN, endN, wf, snap, hist, outs, pc, cur>>
-builder == <<nodes, ctrl, data, brs, tv, mayE, preNode, fmk, berr, compiled, startN, endN, wf, snap>>
+vars == <<hdr, todo, plen, nodes, ctrl, data, brs, tv, mayE, preNode, fmk, berr, compiled, startN, endN, ch, wf, snap, hist, outs, pc, cur>>
+builder == <<nodes, ctrl, data, brs, tv, mayE, preNode, fmk, berr, compiled, startN, endN, ch, wf, snap>>
 case == <<hdr, todo, plen, hist>>
 
-AllKeys == {"n1", "n2", "p1", "p2", "p9", "zz"}
+AllKeys == {"n1", "n2", "n3", "p1", "p2", "p9", "zz"}
 NoNode == [kind |-> "none", i |-> "nil", o |-> "nil"]
 NoCur == [j |-> 0, a |-> "", b |-> "", rem |-> {}, op |-> CompileOp("", "")]
 NoSnap == [set |-> FALSE, mayE |-> {}, brmay |-> <<>>, preNode |-> [k \in AllKeys |-> 0]]
@@ -127,6 +141,7 @@ Init == /\ \E x \in Inits : hdr = x[1] /\ todo = x[2] /\ plen = Len(x[2])
         /\ nodes = [k \in AllKeys |-> NoNode] /\ ctrl = {} /\ data = {} /\ brs = <<>> /\ tv = {} /\ mayE = {}
         /\ preNode = [k \in AllKeys |-> 0] /\ fmk = {}
         /\ wf = [dfr |-> <<>>, sv |-> {}, mapped |-> {}]
+        /\ ch = [err |-> "", hasEnd |-> FALSE, pre |-> "", first |-> ""]
         /\ berr = 0 /\ compiled = FALSE /\ startN = FALSE /\ endN = FALSE /\ snap = NoSnap
         /\ hist = <<>> /\ outs = <<>> /\ pc = "idle" /\ cur = NoCur
 
@@ -150,19 +165,19 @@ DoNode(op, j) ==
              \/ (op.h # "" /\ ~hdr.state)
              \/ (op.h = "pre" /\ (IF pass THEN op.t # "any" ELSE op.t # op.i))
              \/ (op.h = "post" /\ (IF pass THEN op.t # "any" ELSE op.t # op.o))
-  IN IF bad THEN Fail(j) /\ UNCHANGED <<nodes, ctrl, data, brs, tv, mayE, preNode, fmk, compiled, startN, endN, wf, snap>>
+  IN IF bad THEN Fail(j) /\ UNCHANGED <<nodes, ctrl, data, brs, tv, mayE, preNode, fmk, compiled, startN, endN, ch, wf, snap>>
      ELSE /\ nodes' = [nodes EXCEPT ![op.k] = [kind |-> IF pass THEN "pass" ELSE "typed", i |-> IF pass THEN "nil" ELSE op.i, o |-> IF pass THEN "nil" ELSE op.o]]
-          /\ Finish("ok") /\ UNCHANGED <<ctrl, data, brs, tv, mayE, preNode, fmk, berr, compiled, startN, endN, wf, snap>>
+          /\ Finish("ok") /\ UNCHANGED <<ctrl, data, brs, tv, mayE, preNode, fmk, berr, compiled, startN, endN, ch, wf, snap>>
 
 (* addEdgeWithMappings (control + data edge) up to the call of updateToValidateMap *)
 DoEdge(op, j) ==
   LET a == op.a  b == op.b
       bad == a = END \/ b = START \/ (~Known(a) /\ a # START) \/ (~Known(b) /\ b # END) \/ <<a, b>> \in ctrl \/ <<a, b>> \in data
-  IN IF bad THEN Fail(j) /\ UNCHANGED <<nodes, ctrl, data, brs, tv, mayE, preNode, fmk, compiled, startN, endN, wf, snap>>
+  IN IF bad THEN Fail(j) /\ UNCHANGED <<nodes, ctrl, data, brs, tv, mayE, preNode, fmk, compiled, startN, endN, ch, wf, snap>>
      ELSE /\ ctrl' = ctrl \cup {<<a, b>>} /\ startN' = (startN \/ a = START) /\ endN' = (endN \/ b = END)
           /\ tv' = tv \cup {<<a, b, op.x>>}
           /\ pc' = "upd" /\ cur' = [NoCur EXCEPT !.j = j, !.a = a, !.b = b, !.op = op]
-          /\ UNCHANGED <<nodes, data, brs, mayE, preNode, fmk, berr, compiled, wf, snap, outs>>
+          /\ UNCHANGED <<nodes, data, brs, mayE, preNode, fmk, berr, compiled, ch, wf, snap, outs>>
 
 (* updateToValidateMap: one entry per micro-step, any processable one *)
 Processable(p) == ~(OutType(p[1]) = "nil" /\ InType(p[2]) = "nil")
@@ -183,12 +198,12 @@ UpdStep ==
           ELSE IF r = "mustnot" THEN Fail(cur.j) /\ UNCHANGED <<nodes, mayE, fmk>>
           ELSE /\ mayE' = IF r = "may" THEN mayE \cup {<<s, e, ei>>} ELSE mayE     \* the converter checks against the end node's type as it is NOW
                /\ UNCHANGED <<nodes, fmk, berr, outs, pc, cur>>
-  /\ UNCHANGED <<case, ctrl, data, brs, preNode, compiled, startN, endN, wf, snap>>
+  /\ UNCHANGED <<case, ctrl, data, brs, preNode, compiled, startN, endN, ch, wf, snap>>
 UpdDone ==
   /\ pc \in {"upd", "brupd"} /\ Pending = {}
   /\ IF pc = "upd" THEN /\ data' = data \cup {<<cur.a, cur.b>>} /\ Finish("ok")
                    ELSE /\ pc' = "brloop" /\ UNCHANGED <<data, outs, cur>>
-  /\ UNCHANGED <<case, nodes, ctrl, brs, tv, mayE, preNode, fmk, berr, compiled, startN, endN, wf, snap>>
+  /\ UNCHANGED <<case, nodes, ctrl, brs, tv, mayE, preNode, fmk, berr, compiled, startN, endN, ch, wf, snap>>
 
 (* addBranch *)
 DoBranch(op, j) ==
@@ -198,10 +213,10 @@ DoBranch(op, j) ==
       nodes2 == IF bad1 \/ ~over THEN nodes ELSE [nodes EXCEPT ![a].i = op.t, ![a].o = op.t]
       so == IF a = START THEN hdr.gi ELSE IF bad1 THEN "nil" ELSE nodes2[a].o
       r == Check(so, op.t)
-  IN IF bad1 \/ r = "mustnot" THEN Fail(j) /\ UNCHANGED <<nodes, ctrl, data, brs, tv, mayE, preNode, fmk, compiled, startN, endN, wf, snap>>
+  IN IF bad1 \/ r = "mustnot" THEN Fail(j) /\ UNCHANGED <<nodes, ctrl, data, brs, tv, mayE, preNode, fmk, compiled, startN, endN, ch, wf, snap>>
      ELSE /\ nodes' = nodes2
           /\ pc' = "brloop" /\ cur' = [NoCur EXCEPT !.j = j, !.a = a, !.b = r, !.rem = Range(op.ends), !.op = op]
-          /\ UNCHANGED <<ctrl, data, brs, tv, mayE, preNode, fmk, berr, compiled, startN, endN, wf, snap, outs>>
+          /\ UNCHANGED <<ctrl, data, brs, tv, mayE, preNode, fmk, berr, compiled, startN, endN, ch, wf, snap, outs>>
 BrLoop ==
   /\ pc = "brloop"
   /\ IF cur.rem = {} THEN
@@ -212,7 +227,7 @@ BrLoop ==
        ELSE /\ tv' = tv \cup {<<cur.a, e, "">>} /\ startN' = (startN \/ cur.a = START) /\ endN' = (endN \/ e = END)
             /\ cur' = [cur EXCEPT !.rem = cur.rem \ {e}] /\ pc' = "brupd"
             /\ UNCHANGED <<brs, berr, outs>>
-  /\ UNCHANGED <<case, nodes, ctrl, data, mayE, preNode, fmk, compiled, wf, snap>>
+  /\ UNCHANGED <<case, nodes, ctrl, data, mayE, preNode, fmk, compiled, ch, wf, snap>>
 
 (* compile *)
 \* validateDAG: repeatedly release the nodes all of whose non-START control predecessors are released
@@ -248,7 +263,19 @@ WfFold(i, R) ==
 
 DoCompile(op, j) ==
   LET isWf == hdr.fe = "wf"
-      R0 == [ctrl |-> ctrl, data |-> data, fmk |-> fmk, startN |-> startN, endN |-> endN, mapped |-> wf.mapped, res |-> "ok", sticky |-> FALSE]
+      \* chain.go:88-121 addEndIfNeeded: END edge added once; before that the chain's own sticky error c.err is returned.
+      \* Error VALUES (the harness tells "the very error seen before" from a new one): B = gg.buildError (= c.err of a failed Append*),
+      \* X = ErrChainCompiled stored by a refused Append*, F = a fresh error
+      isCh == hdr.fe = "chain"
+      chV == IF ~isCh \/ ch.hasEnd THEN ""
+             ELSE IF ch.err = "compiled" THEN "X" ELSE IF ch.err = "build" THEN "B"
+             ELSE IF ch.pre = "" THEN "F"
+             ELSE IF berr # 0 THEN "B"
+             ELSE IF Check(OutType(ch.pre), hdr.go) = "mustnot" THEN "B!"      \* the END edge is refused now and recorded in buildError
+             ELSE ""
+      addEnd == isCh /\ ~ch.hasEnd /\ chV = ""
+      endP == IF addEnd THEN {<<ch.pre, END>>} ELSE {}
+      R0 == [ctrl |-> ctrl \cup endP, data |-> data \cup endP, fmk |-> fmk, startN |-> startN, endN |-> endN \/ addEnd, mapped |-> wf.mapped, res |-> "ok", sticky |-> FALSE]
       R == IF isWf /\ berr = 0 THEN WfFold(1, R0) ELSE R0
       \* workflow.go:436-447: a static value's path must not be mapped yet -- after a first Compile its own path is
       svClash == isWf /\ R.res = "ok" /\ \E m \in wf.sv : m \in R.mapped
@@ -258,25 +285,50 @@ DoCompile(op, j) ==
       pre2 == IF FixD7 THEN preNode ELSE [k \in AllKeys |-> IF k \in R.fmk THEN preNode[k] + 1 ELSE preNode[k]]
       dag == op.m = "all" \/ isWf
       cpairs == R.ctrl \cup UNION {{<<brs[b].a, e>> : e \in brs[b].ends} : b \in 1..Len(brs)}
-      res == IF berr # 0 THEN "S"
+      res0 == IF berr # 0 THEN "S"
              ELSE IF wfres # "ok" THEN wfres
              ELSE IF err1 THEN "E"
              ELSE IF dag /\ ~DagOKOn(cpairs) THEN "E"
              ELSE IF Untyped # {} THEN "P"               \* graph.go:809-811 dereferences the nil genericHelper of an untyped node
              ELSE IF op.m = "all" /\ op.x = "maxsteps" THEN "E"
              ELSE "ok"
-      mutates == berr = 0 /\ wfres = "ok" /\ ~err1
+      \* graph.go:640-644: a chain refuses the trigger-mode option (after addEndIfNeeded)
+      V == IF chV # "" THEN (IF chV = "B!" THEN "B" ELSE chV)
+           ELSE IF isCh /\ op.m = "all" THEN "F"
+           ELSE IF isCh /\ res0 = "S" THEN "B" ELSE IF isCh /\ res0 = "E" THEN "F" ELSE ""
+      res == IF ~isCh \/ V = "" THEN res0
+             ELSE IF ch.first # "" /\ V # "F" /\ ch.first = V THEN "S" ELSE "E"
+      mutates == berr = 0 /\ wfres = "ok" /\ ~err1 /\ V = ""
   IN /\ preNode' = IF mutates THEN pre2 ELSE preNode
      /\ compiled' = (compiled \/ res = "ok")
      /\ snap' = IF res = "ok" /\ ~snap.set THEN [set |-> TRUE, mayE |-> mayE, brmay |-> Handlers.brmay, preNode |-> pre2] ELSE snap
      /\ ctrl' = R.ctrl /\ data' = R.data /\ fmk' = R.fmk /\ startN' = R.startN /\ endN' = R.endN
-     /\ berr' = IF R.sticky THEN j ELSE berr
+     /\ berr' = IF R.sticky \/ chV = "B!" THEN j ELSE berr
+     /\ ch' = [ch EXCEPT !.hasEnd = ch.hasEnd \/ addEnd, !.first = IF V # "" /\ ch.first = "" THEN V ELSE ch.first]
      /\ wf' = [wf EXCEPT !.dfr = IF isWf /\ berr = 0 /\ R.res = "ok" THEN <<>> ELSE wf.dfr,
                          !.mapped = IF wfres = "ok" /\ berr = 0 THEN R.mapped \cup wf.sv ELSE R.mapped]
      /\ Finish(res)
      /\ UNCHANGED <<nodes, brs, tv, mayE>>
 
 --------------------------------------------------------------------------------
+(* chain.go:522-566 Chain.addNode (the Append calls): returns nothing, the first failure is kept in c.err and reported by Compile.          *)
+(* Only typed nodes are appended here, so the edge from the previous node is validated at once (no worklist).                      *)
+DoAppend(op, j) ==
+  LET prev == IF ch.pre = "" THEN START ELSE ch.pre
+      r == Check(OutType(prev), op.i)
+      node == [kind |-> "typed", i |-> op.i, o |-> op.o]
+  IN /\ Finish("ok")
+     /\ IF ch.err # "" THEN UNCHANGED builder
+        ELSE IF compiled THEN ch' = [ch EXCEPT !.err = "compiled"]        \* refused: ErrChainCompiled goes into c.err
+                              /\ UNCHANGED <<nodes, ctrl, data, brs, tv, mayE, preNode, fmk, berr, compiled, startN, endN, wf, snap>>
+        ELSE /\ nodes' = [nodes EXCEPT ![op.k] = node]
+             /\ ctrl' = ctrl \cup {<<prev, op.k>>} /\ startN' = (startN \/ prev = START)
+             /\ IF r = "mustnot" THEN berr' = j /\ ch' = [ch EXCEPT !.err = "build"] /\ UNCHANGED <<data, mayE>>
+                ELSE /\ data' = data \cup {<<prev, op.k>>}
+                     /\ mayE' = IF r = "may" THEN mayE \cup {<<prev, op.k, op.i>>} ELSE mayE
+                     /\ ch' = [ch EXCEPT !.pre = op.k] /\ berr' = berr
+             /\ UNCHANGED <<brs, tv, preNode, fmk, compiled, endN, wf, snap>>
+
 Call(op) ==
   /\ pc = "idle"
   /\ hist' = Append(hist, op)
@@ -284,10 +336,11 @@ Call(op) ==
      IF op.op = "compile" THEN DoCompile(op, j)
      ELSE IF op.op = "static" THEN      \* WorkflowNode.SetStaticValue: writes the node's own map, no check of any kind
           /\ wf' = [wf EXCEPT !.sv = wf.sv \cup {<<op.k, op.x>>}] /\ Finish("ok")
-          /\ UNCHANGED <<nodes, ctrl, data, brs, tv, mayE, preNode, fmk, berr, compiled, startN, endN, snap>>
+          /\ UNCHANGED <<nodes, ctrl, data, brs, tv, mayE, preNode, fmk, berr, compiled, startN, endN, ch, snap>>
      ELSE IF hdr.fe = "wf" /\ op.op = "edge" THEN    \* deferred to Compile; the call itself returns nothing
           /\ wf' = [wf EXCEPT !.dfr = Append(wf.dfr, op)] /\ Finish("ok")
-          /\ UNCHANGED <<nodes, ctrl, data, brs, tv, mayE, preNode, fmk, berr, compiled, startN, endN, snap>>
+          /\ UNCHANGED <<nodes, ctrl, data, brs, tv, mayE, preNode, fmk, berr, compiled, startN, endN, ch, snap>>
+     ELSE IF hdr.fe = "chain" /\ op.op = "node" THEN DoAppend(op, j)
      ELSE IF berr # 0 THEN Finish("S") /\ UNCHANGED builder                 \* sticky build error first ...
      ELSE IF compiled THEN Finish("C") /\ UNCHANGED builder                \* ... then the compiled flag
      ELSE IF op.op \in {"node", "pass"} THEN DoNode(op, j)
